@@ -26,25 +26,32 @@ def children(buf, start, end):
         tag, vs, vl, e = tlv(buf, off); out.append((tag, off, vs, e)); off = e
     return out
 
-pem = open(f'{here}/ca2/client_cert.pem').read()
-der = base64.b64decode(''.join(l for l in pem.splitlines() if not l.startswith('-----')))
-_, cs, cl, ce = tlv(der, 0)
-top = children(der, cs, ce)
-tbs_tag, tbs_off, tbs_vs, tbs_end = top[0]
-tbs_children = children(der, tbs_vs, tbs_end)
-ext_wrap = tbs_children[-1]; assert ext_wrap[0] == 0xA3
-seq = children(der, ext_wrap[2], ext_wrap[3])[0]; assert seq[0] == 0x30
-exts = children(der, seq[2], seq[3])
-role = [e for e in exts if b'operator' in der[e[1]:e[3]]]; assert len(role) == 1
-role_bytes = der[role[0][1]:role[0][3]]
-second = role_bytes.replace(b'operator', b'engineer')
-new_seq = enc(0x30, der[seq[2]:seq[3]] + second)
-new_tbs = enc(0x30, der[tbs_vs:ext_wrap[1]] + enc(0xA3, new_seq))
-sig = subprocess.run([O, 'dgst', '-sha256', '-sign', f'{here}/ca2/ca_key.pem'], input=new_tbs, stdout=subprocess.PIPE, check=True).stdout
-alg = der[top[1][1]:top[1][3]]
-cert = enc(0x30, new_tbs + alg + enc(0x03, b'\x00' + sig))
-b64 = base64.encodebytes(cert).decode().replace('\n', '')
-with open(f'{here}/ca2/client_tworoles_cert.pem', 'w') as f:
-    f.write('-----BEGIN CERTIFICATE-----\n' + '\n'.join(b64[i:i + 64] for i in range(0, len(b64), 64)) + '\n-----END CERTIFICATE-----\n')
-import shutil; shutil.copy(f'{here}/ca2/client_key.pem', f'{here}/ca2/client_tworoles_key.pem')
+def two_roles(src_cert, sign_key, out_cert, src_key, out_key):
+    pem = open(src_cert).read()
+    der = base64.b64decode(''.join(l for l in pem.splitlines() if not l.startswith('-----')))
+    _, cs, cl, ce = tlv(der, 0)
+    top = children(der, cs, ce)
+    tbs_tag, tbs_off, tbs_vs, tbs_end = top[0]
+    tbs_children = children(der, tbs_vs, tbs_end)
+    ext_wrap = tbs_children[-1]; assert ext_wrap[0] == 0xA3
+    seq = children(der, ext_wrap[2], ext_wrap[3])[0]; assert seq[0] == 0x30
+    exts = children(der, seq[2], seq[3])
+    role = [e for e in exts if b'operator' in der[e[1]:e[3]]]; assert len(role) == 1
+    role_bytes = der[role[0][1]:role[0][3]]
+    second = role_bytes.replace(b'operator', b'engineer')
+    new_seq = enc(0x30, der[seq[2]:seq[3]] + second)
+    new_tbs = enc(0x30, der[tbs_vs:ext_wrap[1]] + enc(0xA3, new_seq))
+    sig = subprocess.run([O, 'dgst', '-sha256', '-sign', sign_key], input=new_tbs, stdout=subprocess.PIPE, check=True).stdout
+    alg = der[top[1][1]:top[1][3]]
+    cert = enc(0x30, new_tbs + alg + enc(0x03, b'\x00' + sig))
+    b64 = base64.encodebytes(cert).decode().replace('\n', '')
+    with open(out_cert, 'w') as f:
+        f.write('-----BEGIN CERTIFICATE-----\n' + '\n'.join(b64[i:i + 64] for i in range(0, len(b64), 64)) + '\n-----END CERTIFICATE-----\n')
+    import shutil; shutil.copy(src_key, out_key)
+
+
+# signed by the ca2 authority
+two_roles(f'{here}/ca2/client_cert.pem', f'{here}/ca2/ca_key.pem', f'{here}/ca2/client_tworoles_cert.pem', f'{here}/ca2/client_key.pem', f'{here}/ca2/client_tworoles_key.pem')
+# self-signed (signed with its own key)
+two_roles(f'{here}/ss/client_cert.pem', f'{here}/ss/client_key.pem', f'{here}/ss/client_tworoles_cert.pem', f'{here}/ss/client_key.pem', f'{here}/ss/client_tworoles_key.pem')
 print('ok')
